@@ -121,6 +121,17 @@ CLAIMED = {
              'No unbounded equality theorem (would need a simulation proof between two stack machines). Three fix: commits.',
         technique='Coq proof (boolean case analysis, unbounded) + kernel evaluation of model vs specification on the finite sets + exhaustive implementation-vs-specification comparison',
         design='5/C06'),
+    'C12': dict(
+        text='Theorems: (a) for EVERY input and token configuration the tree the parser model produces is well-shaped (lists hold items only, tables rows, '
+             'rows cells, leaf blocks and inline containers hold inline tokens only, quotes/items/documents hold block tokens only; code and HTML blocks hold '
+             'exactly one raw text by construction) - proved through the dispatch loop, the list reader and all constructors; (b) for ALL trees, class filters '
+             'and depth limits utils.traverse yields exactly the proper descendants that pass filter and limit, each exactly once, with depth = distance and the '
+             'true parent (paths as identities). Parser model tied by X-doc; traverse model tied by running the real generator on real object graphs with '
+             'random klass/depth/include_source. Parent links, reachability, attribute ranges and the AST JSON mirror are checked by an independent walker.',
+        note='Trusted: Coq kernel, extraction, parser model and traverse model (both correspondence-checked), the walker. Attribute ranges (heading level, list start) '
+             'and JSON text validity are oracle-only.',
+        technique='Coq proof (induction over fuel/loops/pre-token trees; BFS level characterisation) + extracted-model correspondence + independent object-graph walker',
+        design='5/C12'),
 }
 
 NOT_YET = {}
